@@ -877,6 +877,9 @@ func genHostsFile(rng *rand.Rand) []byte {
 		sb.WriteString(t)
 	}
 	nl := pick(rng, 0, 1, 1, 2, 3, 4, 5, 6, 8, 12)
+	if rng.IntN(60) == 0 {
+		nl = pick(rng, 63, 64, 65, 129, 257) // many lines (line counters, batches)
+	}
 	if v, ok := dictInt(rng, 0, 40); ok && rng.IntN(20) == 0 {
 		nl = int(v)
 	}
